@@ -242,6 +242,14 @@ func (x *Exec) newRef(st *State, hint string) Term {
 	r := x.D.Fresh("ref."+hint, SRef)
 	st.assume(Eq(App(SInt, "rid", r), IntLit(int64(x.nref))))
 	st.assume(Not(Eq(r, TNull)))
+	// a new object is different from every reference the path has seen so far
+	seen := map[string]bool{}
+	for _, o := range st.seenRefs {
+		if !seen[o.S] {
+			seen[o.S] = true
+			st.assume(Not(Eq(r, o)))
+		}
+	}
 	return r
 }
 
@@ -710,6 +718,16 @@ func (x *Exec) jump(st *State, fr *Frame, b *ssa.BasicBlock) bool {
 			for _, cl := range x.iterClauses(st, fr, ld) {
 				sc := x.scopeFor(st, fr)
 				sc.addVars(vars)
+				// head_<name>: the value the loop variable had when this iteration started
+				for _, in := range b.Instrs {
+					phi, ok := in.(*ssa.Phi)
+					if !ok {
+						break
+					}
+					if hv, ok := fr.env[phi]; ok && phi.Comment != "" && phi.Comment != "rangeindex" {
+						sc.vars["head_"+phi.Comment] = hv
+					}
+				}
 				t, err := x.evalBool(st, fr, cl.E, sc)
 				if err != nil {
 					x.unsupported("loop %s back_edge_ensures in %s: %v", ref, CanonName(fr.fn), err)
@@ -887,7 +905,7 @@ func (x *Exec) havocLoop(st *State, fr *Frame, ld *loopDesc) {
 		for n := range st.heap {
 			touched[n] = true
 		}
-		for i := range st.worlds {
+		for i := range x.loopWorlds(st, fr, ld) {
 			st.worlds[i] = x.freshWorld(fmt.Sprintf("W%d.loop", i))
 		}
 		touched["*"] = true
@@ -1470,4 +1488,83 @@ func (x *Exec) iterClauses(st *State, fr *Frame, ld *loopDesc) []Clause {
 		out = append(out, x.TopC.LoopClauses(fr.fn.Name()+"#"+ref, "back_edge_ensures")...)
 	}
 	return out
+}
+
+// loopWorlds: the worlds a loop body can write — those of the context / store values its calls are
+// handed. A context-typed operand that is not bound before the loop (created inside it) makes the
+// answer "all worlds".
+func (x *Exec) loopWorlds(st *State, fr *Frame, ld *loopDesc) map[int]bool {
+	out := map[int]bool{}
+	all := func() map[int]bool {
+		for i := range st.worlds {
+			out[i] = true
+		}
+		return out
+	}
+	for bi := range ld.body {
+		for _, in := range fr.fn.Blocks[bi].Instrs {
+			var cc *ssa.CallCommon
+			switch c := in.(type) {
+			case *ssa.Call:
+				cc = c.Common()
+			case *ssa.Defer:
+				cc = c.Common()
+			case *ssa.Go:
+				cc = c.Common()
+			}
+			if cc == nil {
+				continue
+			}
+			ops := append([]ssa.Value{}, cc.Args...)
+			if cc.IsInvoke() {
+				ops = append(ops, cc.Value)
+			}
+			if mc, ok := cc.Value.(*ssa.MakeClosure); ok {
+				ops = append(ops, mc.Bindings...)
+			}
+			for _, a := range ops {
+				t := a.Type()
+				if p, ok := t.Underlying().(*types.Pointer); ok {
+					t = p.Elem() // captured variables are passed by address
+				}
+				if !isContextType(t) && !isStoreType(t) {
+					continue
+				}
+				// look through interface conversions of a context
+				src := a
+				for {
+					if mi, ok := src.(*ssa.MakeInterface); ok {
+						src = mi.X
+						continue
+					}
+					if ci, ok := src.(*ssa.ChangeInterface); ok {
+						src = ci.X
+						continue
+					}
+					break
+				}
+				v, ok := fr.env[src]
+				if !ok || v.World == 0 {
+					return all()
+				}
+				out[v.World-1] = true
+			}
+		}
+	}
+	return out
+}
+
+// sawRef records reference-valued terms obtained from loads and calls.
+func (x *Exec) sawRef(st *State, v Val) {
+	switch v.T.Sort {
+	case SRef:
+		if v.T.S != "null" {
+			st.seenRefs = append(st.seenRefs, v.T)
+		}
+	case SSlice:
+		st.seenRefs = append(st.seenRefs, App(SRef, "s.base", v.T))
+	}
+	for _, c := range v.Tup {
+		x.sawRef(st, c)
+	}
 }
